@@ -250,7 +250,7 @@ func firstWords(out string) []string {
 // solve discharges all VCs of the function: first the incremental script on the
 // primary solver, then every VC that is not settled individually on the whole
 // portfolio.
-func (r *FnRun) solve(workDir string, quickMs int, allSolvers bool) {
+func (r *FnRun) solveBatch(workDir string, quickMs int, allSolvers bool) {
 	if len(r.obls) == 0 {
 		return
 	}
